@@ -516,7 +516,10 @@ def check_coverage(ctx):
       return isinstance(n_, (ast.Assign, ast.Expr)) and any(isinstance(c, ast.Call) and isinstance(c.func, ast.Attribute) and c.func.attr == "get" and "region" in unparse(c.func.value) and "fingerprint" in unparse(c) or
                                                              (isinstance(c, ast.Call) and isinstance(c.func, ast.Attribute) and c.func.attr == "get" and unparse(c.func.value).endswith("_regions")) for c in ast.walk(n_)) \
         and getattr(n_, "_parent", None) is lp_
-    _trav.check_loop_reached(ctx, f, _is_bookkeeping, "every region reaches the test for a similar region", rule="COVER", scope=lp_)
+    if any(_is_bookkeeping(n_) for n_ in own_nodes(lp_)):
+      _trav.check_loop_reached(ctx, f, _is_bookkeeping, "every region reaches the test for a similar region", rule="COVER", scope=lp_)
+    else:
+      ctx.undecide("COVER", f"{f.qualname}: the statement of the region loop that looks a similar region up was not recognised")
   else:
     ctx.undecide("COVER", f"{f.qualname}: the loop over the regions that merges similar regions was not found ({len(rloops)} candidates)")
   ctx.check(on_body, "COVER", f"{f.qualname}|animations removed from the body", ctx.where(f.module, f.node),
